@@ -56,7 +56,7 @@ func peelCopy(v ssa.Value) ssa.Value {
 		if f != nil && f.Origin() != nil {
 			f = f.Origin()
 		}
-		if f != nil && f.Pkg != nil && (f.Pkg.Pkg.Path() == "slices" || f.Pkg.Pkg.Path() == "strings" || f.Pkg.Pkg.Path() == "maps") && f.Name() == "Clone" && len(call.Call.Args) == 1 {
+		if f != nil && f.Pkg != nil && (f.Pkg.Pkg.Path() == "slices" || f.Pkg.Pkg.Path() == "strings" || f.Pkg.Pkg.Path() == "maps" || f.Pkg.Pkg.Path() == "bytes") && f.Name() == "Clone" && len(call.Call.Args) == 1 {
 			v = strip(call.Call.Args[0])
 			continue
 		}
@@ -602,7 +602,7 @@ func c18Downstream(c *Ctx) {
 		elems, ok := sliceLitElems(keys)
 		good := ok
 		for _, e := range elems {
-			if strip(e) != ssa.Value(fn.Params[0]) && strip(e) != ssa.Value(fn.Params[1]) {
+			if pe := localVal(peelCopy(localVal(strip(e)))); pe != ssa.Value(fn.Params[0]) && pe != ssa.Value(fn.Params[1]) {
 				good = false
 			}
 		}
